@@ -3,6 +3,8 @@ CONSTANTS
   MaxLen = 0
   Keys = 0
   Mech = "ok"
+  MaxStmts = 0
+  QualOpts = 0
 INIT TInit
 NEXT TNext
 POSTCONDITION TraceConsumed
